@@ -46,3 +46,5 @@ include!("c01.rs");
 include!("c09.rs");
 include!("c10.rs");
 include!("c11.rs");
+include!("c05.rs");
+include!("c04.rs");
